@@ -9,8 +9,7 @@ import (
 	"sync"
 	"time"
 
-	"github.com/lindb/common/models"
-
+	"github.com/lindb/lindb/constants"
 	"github.com/lindb/lindb/flow"
 	"github.com/lindb/lindb/query"
 	stagepkg "github.com/lindb/lindb/query/stage"
@@ -22,34 +21,118 @@ import (
 
 func init() { register("pipeline", pipelineMain) }
 
-// scripted plan node: the body of a stage.
-type scriptNode struct {
+// scriptOp is the operator of one node of a stage's plan tree, with a scripted result. The plan tree itself is
+// made of the real plan nodes (stage.NewEmptyPlanNode / NewPlanNode / NewPlanNodeWithIgnore) and is walked by the
+// real baseStage.execute.
+type scriptOp struct {
+	id   string
 	body func() error
 }
 
-func (n *scriptNode) Execute() error { return n.body() }
-func (n *scriptNode) ExecuteWithStats() (*models.OperatorStats, error) {
-	return nil, n.body()
-}
-func (n *scriptNode) Children() []stagepkg.PlanNode { return nil }
-func (n *scriptNode) AddChild(stagepkg.PlanNode)    {}
-func (n *scriptNode) IgnoreNotFound() bool          { return false }
+func (o *scriptOp) Identifier() string { return o.id }
+func (o *scriptOp) Execute() error     { return o.body() }
 
+// pipeCase: a tree of stages (Children / Async / Outcome: "tree" = Plan() returns the plan tree, "planpanic" =
+// Plan() panics) and, per stage, a plan tree (PRoot[stage] = its root node; PKids / POut over all plan nodes:
+// "none" no operator, "ok", "err", "panic", "ign" = not-found on a node that ignores not-found).
 type pipeCase struct {
 	Stages   []string            `json:"stages"`
 	Children map[string][]string `json:"children"`
 	Async    map[string]bool     `json:"async"`
 	Outcome  map[string]string   `json:"outcome"`
 	Root     string              `json:"root"`
+	PKids    map[string][]string `json:"pkids"`
+	POut     map[string]string   `json:"pout"`
+	PRoot    map[string]string   `json:"proot"`
+	// how the operator / node produces its outcome (not part of the model): for "err": 0 plain error, 1 plain error on
+	// an ignore-not-found node, 2 not-found on a plain node; for "ok": 1 = ignore-not-found node; for a stage
+	// whose plan is one node without operator: 1 = Plan() returns nil
+	Flavor map[string]int `json:"flavor"`
 }
 
 func (c *pipeCase) key() string {
-	return fmt.Sprint(c.Children, c.Async, c.Outcome)
+	return fmt.Sprint(c.Children, c.Async, c.Outcome, c.PKids, c.POut)
 }
 
-// genTree makes a random tree over n stages s0..s(n-1), s0 root.
+func newPipeCase() *pipeCase {
+	return &pipeCase{Children: map[string][]string{}, Async: map[string]bool{}, Outcome: map[string]string{}, Root: "s0",
+		PKids: map[string][]string{}, POut: map[string]string{}, PRoot: map[string]string{}, Flavor: map[string]int{}}
+}
+
+// pn: literal plan tree of the scripted cases.
+type pn struct {
+	out  string
+	kids []*pn
+}
+
+func nd(out string, kids ...*pn) *pn { return &pn{out: out, kids: kids} }
+
+func (c *pipeCase) addStage(s string, async bool, plan *pn, children ...string) {
+	c.Stages = append(c.Stages, s)
+	c.Children[s] = append([]string{}, children...)
+	c.Async[s] = async
+	c.Outcome[s] = "tree"
+	if plan == nil {
+		c.Outcome[s] = "planpanic"
+		plan = nd("ok")
+	}
+	cnt := 0
+	var add func(p *pn) string
+	add = func(p *pn) string {
+		id := fmt.Sprintf("%sn%d", s, cnt)
+		cnt++
+		c.POut[id] = p.out
+		c.PKids[id] = []string{}
+		for _, k := range p.kids {
+			c.PKids[id] = append(c.PKids[id], add(k))
+		}
+		return id
+	}
+	c.PRoot[s] = add(plan)
+}
+
+// genPlan makes a random plan tree for stage s: depth <= 3, an inner node has 1..3 children.
+func genPlan(rng *rand.Rand, c *pipeCase, s string, pErr, pPanic, pIgn float64) {
+	cnt := 0
+	var gen func(depth int) string
+	gen = func(depth int) string {
+		id := fmt.Sprintf("%sn%d", s, cnt)
+		cnt++
+		pNone := 0.15
+		if depth == 1 {
+			pNone = 0.5 // the real stages plan an empty root with the operators below it
+		}
+		r := rng.Float64()
+		switch {
+		case rng.Float64() < pNone:
+			c.POut[id] = "none"
+		case r < pErr:
+			c.POut[id] = "err"
+		case r < pErr+pPanic:
+			c.POut[id] = "panic"
+		case r < pErr+pPanic+pIgn:
+			c.POut[id] = "ign"
+		default:
+			c.POut[id] = "ok"
+		}
+		c.Flavor[id] = rng.Intn(3)
+		c.PKids[id] = []string{}
+		nk := 0
+		pLeaf := []float64{0, 0.2, 0.55, 1}[depth]
+		if rng.Float64() >= pLeaf {
+			nk = 1 + rng.Intn(3)
+		}
+		for i := 0; i < nk; i++ {
+			c.PKids[id] = append(c.PKids[id], gen(depth+1))
+		}
+		return id
+	}
+	c.PRoot[s] = gen(1)
+}
+
+// genCase makes a random tree over n stages s0..s(n-1), s0 root, and a random plan tree per stage.
 func genCase(rng *rand.Rand, n int, pErr, pPanic float64) *pipeCase {
-	c := &pipeCase{Children: map[string][]string{}, Async: map[string]bool{}, Outcome: map[string]string{}, Root: "s0"}
+	c := newPipeCase()
 	for i := 0; i < n; i++ {
 		s := fmt.Sprintf("s%d", i)
 		c.Stages = append(c.Stages, s)
@@ -61,19 +144,54 @@ func genCase(rng *rand.Rand, n int, pErr, pPanic float64) *pipeCase {
 	}
 	for _, s := range c.Stages {
 		c.Async[s] = rng.Intn(2) == 0
-		r := rng.Float64()
-		switch {
-		case r < pErr:
-			c.Outcome[s] = "err"
-		case r < pErr+pPanic/2:
-			c.Outcome[s] = "panic"
-		case r < pErr+pPanic:
+		c.Outcome[s] = "tree"
+		if rng.Float64() < pPanic/2 {
 			c.Outcome[s] = "planpanic"
-		default:
-			c.Outcome[s] = "ok"
 		}
+		// a plan has some 4 operators: per operator a third of the stage's share
+		genPlan(rng, c, s, pErr/3, pPanic/6, pErr/4)
 	}
 	return c
+}
+
+// scriptedCases: plan trees in which the place of the failing operator matters (a failing operator that is not
+// the last one of its level, followed by siblings / uncles / nothing but an empty node), inline and on the pool.
+func scriptedCases() []*pipeCase {
+	var out []*pipeCase
+	solo := func(async bool, plan *pn) {
+		c := newPipeCase()
+		c.addStage("s0", async, plan)
+		out = append(out, c)
+	}
+	for _, async := range []bool{false, true} {
+		solo(async, nd("none", nd("ok"), nd("err"), nd("ok")))                       // a family read fails, the operators after it succeed
+		solo(async, nd("none", nd("err"), nd("ok")))                                 // first operator fails
+		solo(async, nd("none", nd("ok"), nd("err")))                                 // last operator fails
+		solo(async, nd("ok", nd("ok", nd("ok"), nd("err")), nd("ok")))               // failure at the end of an inner level, an uncle follows
+		solo(async, nd("none", nd("ok", nd("err"), nd("ok")), nd("ok", nd("ok"))))   // failure inside, siblings and uncles follow
+		solo(async, nd("none", nd("err"), nd("none")))                               // only a node without operator follows
+		solo(async, nd("none", nd("ok", nd("panic"), nd("ok")), nd("ok")))           // panic in the middle
+		solo(async, nd("none", nd("ign", nd("err")), nd("ok"), nd("err"), nd("ok"))) // ignored not-found prunes its subtree
+		solo(async, nd("ok", nd("ok", nd("ok"), nd("ok"), nd("ok")), nd("none", nd("ok"), nd("ok")), nd("ok", nd("ok"))))
+		solo(async, nd("err", nd("ok"), nd("ok"))) // the root operator fails: no child runs
+	}
+	// lookup -> (shard1 fails in the middle of its plan, shard2 succeeds), every inline / pool combination
+	for m := 0; m < 8; m++ {
+		c := newPipeCase()
+		c.addStage("s0", m&1 != 0, nd("ok"), "s1", "s2")
+		c.addStage("s1", m&2 != 0, nd("none", nd("ok"), nd("err"), nd("ok")))
+		c.addStage("s2", m&4 != 0, nd("none", nd("ok"), nd("ok"), nd("ok")))
+		out = append(out, c)
+	}
+	// a chain: the failing plan is the one of the last stage, below a stage whose plan has an ignored not-found
+	for m := 0; m < 4; m++ {
+		c := newPipeCase()
+		c.addStage("s0", m&1 != 0, nd("none", nd("ign", nd("ok")), nd("ok")), "s1")
+		c.addStage("s1", m&2 != 0, nd("ok", nd("ok", nd("panic")), nd("ok")), "s2")
+		c.addStage("s2", false, nd("ok"))
+		out = append(out, c)
+	}
+	return out
 }
 
 type pipeResult struct {
@@ -102,34 +220,62 @@ func runPipeCase(rec *trace.Recorder, c *pipeCase, seed int64, free bool) pipeRe
 		}
 		return "main"
 	}
-	rec.Reset(trace.F{"children": c.Children, "async": c.Async, "outcome": c.Outcome, "root": c.Root})
+	rec.Reset(trace.F{"children": c.Children, "async": c.Async, "outcome": c.Outcome, "root": c.Root,
+		"pkids": c.PKids, "pout": c.POut, "proot": c.PRoot, "flavor": c.Flavor})
 
 	var mu sync.Mutex
 	res := pipeResult{}
 	ctx := context.Background()
 	var mk func(s string) stagepkg.Stage
 	mk = func(s string) stagepkg.Stage {
-		node := &scriptNode{body: func() error {
-			sc.Yield(owner(s), "exec:"+s)
-			rec.Emit("Exec", trace.F{"s": s, "outcome": c.Outcome[s]})
-			switch c.Outcome[s] {
-			case "err":
-				return errors.New("boom " + s)
-			case "panic":
-				panic("kaboom " + s)
+		// the plan tree of the stage: real plan nodes, scripted operators
+		var build func(n string) stagepkg.PlanNode
+		build = func(n string) stagepkg.PlanNode {
+			var node stagepkg.PlanNode
+			oc, fl := c.POut[n], c.Flavor[n]
+			op := &scriptOp{id: n, body: func() error {
+				sc.Yield(owner(s), "op:"+n)
+				rec.Emit("Op", trace.F{"s": s, "node": n, "outcome": oc})
+				switch oc {
+				case "err":
+					if fl == 2 {
+						return fmt.Errorf("boom %s: %w", n, constants.ErrNotFound)
+					}
+					return errors.New("boom " + n)
+				case "ign":
+					return fmt.Errorf("nothing in %s: %w", n, constants.ErrNotFound)
+				case "panic":
+					panic("kaboom " + n)
+				}
+				return nil
+			}}
+			switch {
+			case oc == "none":
+				node = stagepkg.NewEmptyPlanNode()
+			case oc == "ign", oc == "err" && fl == 1, oc == "ok" && fl == 1:
+				node = stagepkg.NewPlanNodeWithIgnore(op)
+			default:
+				node = stagepkg.NewPlanNode(op)
 			}
-			return nil
-		}}
+			for _, k := range c.PKids[n] {
+				node.AddChild(build(k))
+			}
+			return node
+		}
 		return stagepkg.NewVerifStage(ctx, &stagepkg.VerifScript{
 			ID:    s,
 			Async: c.Async[s],
 			PlanFn: func() stagepkg.PlanNode {
 				if c.Outcome[s] == "planpanic" {
 					// Plan() runs on the goroutine of the caller of executeStage (the parent's thread)
-					rec.Emit("Exec", trace.F{"s": s, "outcome": "planpanic"})
+					rec.Emit("PlanPanic", trace.F{"s": s})
 					panic("plan kaboom " + s)
 				}
-				return node
+				r := c.PRoot[s]
+				if c.POut[r] == "none" && len(c.PKids[r]) == 0 && c.Flavor[r] == 1 {
+					return nil // no plan at all: baseStage.execute(nil)
+				}
+				return build(r)
 			},
 			Next: func() []stagepkg.Stage {
 				sc.Yield(owner(s), "next:"+s)
@@ -213,6 +359,12 @@ func pipelineMain(args []string) int {
 	rng := rand.New(rand.NewSource(*seed))
 	sum := &trace.Summary{Module: "Pipeline"}
 	distinct := map[string]bool{}
+	scripted := 0
+	for _, c := range scriptedCases() {
+		r := runPipeCase(rec, c, rng.Int63(), *free)
+		distinct[c.key()+fmt.Sprint(r.schedule)] = true
+		scripted++
+	}
 	for i := 0; i < *n; i++ {
 		k := 1 + rng.Intn(*maxStages)
 		pe, pp := 0.2, 0.2
@@ -232,6 +384,7 @@ func pipelineMain(args []string) int {
 	_ = rec.Close()
 	sum.Traces, sum.Events = rec.Counts()
 	sum.Distinct = len(distinct)
+	sum.Extra = map[string]any{"scripted_plan_tree_cases": scripted}
 	sum.Print()
 	return 0
 }
